@@ -30,7 +30,8 @@ KEXES = ssh.KEX_NAMES
 HOSTALGOS = tuple(ssh.HOSTKEY_ALGOS)
 FIELDS = ("hostkey", "pub", "sig_name", "sig_blob")
 MUTS = ("flip", "truncate", "swap-same-type", "swap-other-type")
-FAULTS = [(f, m) for f in FIELDS for m in ("flip", "truncate")] + [("hostkey", "swap-same-type"), ("hostkey", "swap-other-type")]
+FAULTS = [(f, m) for f in FIELDS for m in ("flip", "truncate")] + [("hostkey", "swap-same-type"), ("hostkey", "swap-other-type"),
+                                                                    ("pub", "reencode"), ("sig_blob", "flip-last")]
 REPLY_TYPE = {"gex": 33, "other": 31}
 
 
@@ -61,6 +62,19 @@ def mutate_reply(sim, payload, kex, field, mut, halgo):
             return b[:i] + bytes([b[i] ^ (1 << sim.choose(8))]) + b[i + 1:]
         if mut == "truncate":
             return b[:sim.choose(len(b))] if b else b
+        if mut == "flip-last":
+            return b[:-1] + bytes([b[-1] ^ 1]) if b else b"\x01"
+        if mut == "reencode":
+            # same value, different encoding: compressed EC point / mpint with a redundant leading zero
+            if kex.startswith("ecdh-sha2-"):
+                from cryptography.hazmat.primitives.asymmetric import ec
+                from cryptography.hazmat.primitives import serialization
+                curve = {"nistp256": ec.SECP256R1, "nistp384": ec.SECP384R1, "nistp521": ec.SECP521R1}[kex[-8:]]
+                pt = ec.EllipticCurvePublicKey.from_encoded_point(curve(), b)
+                return pt.public_bytes(serialization.Encoding.X962, serialization.PublicFormat.CompressedPoint)
+            if kex.startswith("diffie-hellman"):
+                return b"\x00" + b
+            return b[:-1] + bytes([b[-1] ^ 0x80])   # x25519: non-canonical top bit
         return b
 
     if field == "hostkey":
@@ -100,7 +114,7 @@ def _lenient_ints(blob):
     return tuple(out) + (blob[i:],)
 
 
-def same_values(orig, mutated):
+def same_values(orig, mutated, dh=False):
     """True if the mutated reply still carries exactly the original values and only
     an inner length prefix of the ECDSA (r, s) encoding differs (encoding malleability)."""
     def split(p):
@@ -112,7 +126,13 @@ def same_values(orig, mutated):
         a, b = split(orig), split(mutated)
     except Exception:
         return False
-    if a[0] != b[0] or a[1] != b[1] or a[2] != b[2] or a[4] != b[4] or a[5] != b[5]:
+    if a[0] != b[0] or a[2] != b[2] or a[4] != b[4] or a[5] != b[5]:
+        return False
+    if a[1] != b[1]:
+        # f as an mpint with redundant leading zero bytes is the same integer
+        if dh and int.from_bytes(a[1], "big", signed=True) == int.from_bytes(b[1], "big", signed=True) \
+                and a[3] == b[3]:
+            return "mpint"
         return False
     if not a[2].startswith(b"ecdsa-"):
         return a[3] == b[3]
@@ -144,7 +164,7 @@ def scenario(sim):
                 state["mutated"] = True
                 sim.fault("reply_" + fault[0] + "_" + fault[1])
                 new = mutate_reply(sim, payload, kex, fault[0], fault[1], halgo)
-                state["same_values"] = same_values(payload, new)
+                state["same_values"] = same_values(payload, new, kex.startswith("diffie-hellman"))
                 state["noop"] = new == payload
                 return [new]
         return [payload]
@@ -222,6 +242,10 @@ def scenario(sim):
             sim.probe("mutation_was_noop")
             p.close()
             return {"sample": desc}
+        if c_newkeys > target and state.get("same_values") == "mpint":
+            raise Violation(("C06", "accepted-reencoded-same-value", "f-mpint-leading-zero"),
+                            "client accepted a reply whose f was re-encoded with a redundant leading zero byte (same integer; "
+                            "H is computed over the canonical re-encoding)", desc)
         if c_newkeys > target and state.get("same_values"):
             # every value (key, public value, algorithm name, r and s) is unchanged; only an inner
             # length prefix of the ECDSA signature encoding was altered and paramiko's lenient
